@@ -78,3 +78,33 @@ if __name__ == "__main__":
         print(json.dumps(verify(sys.argv[2], sys.argv[3]), indent=1))
     elif sys.argv[1] == "try":
         sys.exit(try_patch(sys.argv[2]))
+
+
+def matrix():
+    """Re-run every kept seeded change under /verif/seeded against the current checks and refresh the
+    `detection` block of its meta.json."""
+    import glob
+    base = "/verif/seeded"
+    for d in sorted(glob.glob(base + "/*/")):
+        patch = d + "patch.diff"
+        meta_p = d + "meta.json"
+        if not os.path.exists(patch):
+            continue
+        r = subprocess.run([sys.executable, __file__, "try", patch], capture_output=True, text=True)
+        try:
+            res = json.loads(r.stdout)
+        except ValueError:
+            print(d, "could not be tried:", r.stdout[-200:])
+            continue
+        meta = json.load(open(meta_p))
+        viol = sorted(p for p, x in res.items() if x.get("rc") == 1)
+        err = sorted(p for p, x in res.items() if x.get("rc") == 2)
+        meta["detection"].update({"violation_reported_by": viol, "analysis_error_in": err,
+                                  "first_report": {p: (x["first"][0] if x.get("first") else "") for p, x in res.items() if x.get("rc") == 1},
+                                  "caught_by_own_property_check": meta["property"] in viol})
+        json.dump(meta, open(meta_p, "w"), indent=1)
+        print(os.path.basename(d.rstrip("/")), "VIOL", viol, "ERR", err, flush=True)
+
+
+if __name__ == "__main__" and len(sys.argv) > 1 and sys.argv[1] == "matrix":
+    matrix()
